@@ -882,6 +882,35 @@ def check_reapply_and_reset(ctx):
         if not has_loop:
             bad = p
             break
+    # ... and inside the loop every default whose name the store lacks is
+    # put into it, whatever else is true of that default
+    unmerged = None
+    for p in t.paths:
+        if p.outcome.kind == 'raise' or unmerged is not None:
+            continue
+        entered = any(c.kind == 'loop' and c.pol and 'registered_rules' in U(
+            t.expand(c.expr)) for c in p.conds)
+        if not entered:
+            continue
+        asked = [c for c in p.conds if c.kind == 'test' and isinstance(
+            c.expr, ast.Compare) and len(c.expr.ops) == 1 and isinstance(
+                c.expr.ops[0], ast.In) and U(t.expand(
+                    c.expr.comparators[0])) in ('self.rules',
+                                                'self.rules.keys()')
+            and U(t.expand(c.expr.left)).endswith('.name')]
+        present = any(c.pol for c in asked)
+        stored = any(e.kind == 'store' and isinstance(
+            e.node, ast.Subscript) and U(e.node.value) == 'self.rules'
+            for e in p.events)
+        if not present and not stored:
+            unmerged = p
+    ctx.ob('C10.DEFAULTS', unmerged is None, ctx.where(lr.module, lr.node),
+           lr.qual, 'every absent default is merged',
+           'a registered default whose name the store lacks is put into it'
+           if unmerged is None else
+           'a registered default can be left out of the store although its '
+           'name is not defined there (path: %s): the name is then decided '
+           'by the default rule' % unmerged.cond_text()[-300:])
     ctx.ob('C10.DEFAULTS', bad is None, ctx.where(lr.module, lr.node),
            lr.qual, 'default merge reachability',
            'registered defaults are merged on every load, whatever changed'
